@@ -97,6 +97,7 @@ def gen_plan(seed, tier="quick"):
         "k_filter": k_filter, "reject": reject, "wrot": wrot, "wrot_seed": r.randrange(1 << 30),
         "ns2add": r.choice([0, 0, 0, 7, 100, (-ns) % 512]), "drop_sync": r.random() < 0.3,
         "default_k": nap >= 64 and r.random() < 0.7, "ntr_pad": r.choice([4, 8, min(nap, 12)]),
+        "rerun": r.random() < 0.15,      # an earlier plain run left its output and QC files in the same directory
         "append": r.random() < 0.2, "ns_first": r.randrange(12000, 16000) if (reject and r.random() < 0.7) else r.randrange(1500, 9000), "nproc_first": r.choice([1, 2, 3]),
         "p_switch": r.choice([0.0, 0.0, 0.01, 0.05, 0.2, 0.5, 1.0]),
         "victim": r.choice([None, None, 0, nproc - 1, r.randrange(nproc)]),
@@ -291,7 +292,7 @@ def _run(plan, base):
         first_bytes = b""
         outs = {}
         # optional first run of an append history (its own recording), on each output file
-        if plan["append"]:
+        if plan["append"] or plan.get("rerun"):
             O1 = world.make_data(plan["data_seed"] ^ 0x77, plan["ns_first"], nap, amp=plan["amp"], maxint=plan["maxint"], smooth=True)
             bin1 = world.write_recording(base / "rec1", STEM, plan["fixture"], O1)
         for tag, nproc, schedule in (("ref", 1, None),
@@ -301,7 +302,7 @@ def _run(plan, base):
             od.mkdir()
             out = od / "destriped.bin"
             offset = 0
-            if plan["append"]:
+            if plan["append"] or plan.get("rerun"):
                 r1 = _sim_run(plan, bin1, out, 1 if tag == "ref" else plan["nproc_first"], False, W,
                               None if tag == "ref" else {"seed": plan["sched_seed"] ^ 1, "p_switch": plan["p_switch"]})
                 if r1["err"]:
@@ -310,6 +311,10 @@ def _run(plan, base):
                 first_bytes = out.read_bytes()
                 if offset != (plan["ns_first"] + plan["ns2add"]) * nc_out * 2:
                     raise Violation("C06.a", f"{sigbase}:size-first", f"first run wrote {offset} bytes for ns={plan['ns_first']}")
+                if not plan["append"]:
+                    offset = 0          # plain re-run into the same place: nothing of the earlier run may survive
+                    first_bytes = b""
+                    probe("rerun_over_earlier_output")
             res = _sim_run(plan, binf, out, nproc, plan["append"], W, schedule)
             stats["steps"] += sum(t[1] for t in res["trace"])
             if res["err"]:
